@@ -173,6 +173,11 @@ func (c *c06Case) Sx() string {
 	if c.Fatal != "" {
 		return ""
 	}
+	for _, s := range c.Steps {
+		if len(s.V) > 256<<10 {
+			return "" // megabyte values: oracle only
+		}
+	}
 	if len(c.Flood) > 0 {
 		var fl []string
 		for i, f := range c.Flood {
@@ -285,6 +290,20 @@ func genC06(r *rand.Rand, tier string) []Case {
 				c.Steps = append(c.Steps, dbStep{Op: "del", K: keys[r.Intn(len(keys))]}, dbStep{Op: "rotate"}, dbStep{Op: "compact"})
 			}
 		}
+		cases = append(cases, c)
+	}
+	// values of a mebibyte and more travel through a compaction (the sequential reader of the merge has its own path for
+	// records above the buffer pool's largest class)
+	for i := 0; i < 1; i++ {
+		keys := [][]byte{[]byte("key00"), []byte("key01"), []byte("key02")}
+		c := &c06Case{Keys: keys}
+		c.Opts = dbOpts{MemstoreBytes: 1 << 30, Threshold: 0, MaxSize: 5 << 30, RatioPct: 100, WBuf: 4096, RBuf: 4096}
+		for t, n := range []int{1 << 20, 1<<20 + 1, 600 << 10} {
+			v := make([]byte, n)
+			r.Read(v)
+			c.Steps = append(c.Steps, dbStep{Op: "putb", K: keys[t], V: v}, dbStep{Op: "rotate"})
+		}
+		c.Steps = append(c.Steps, dbStep{Op: "compact"})
 		cases = append(cases, c)
 	}
 	// dozens of small tables piled up (a cycle that selects far more inputs than usual, from the oldest on): values in the
